@@ -175,6 +175,7 @@ type segEvent struct {
 
 type segDriver struct {
 	reused segmenter.Segmenter
+	buf    []rune // the caller-owned input buffer of the re-used segmenter
 	rng    *rand.Rand
 }
 
@@ -252,7 +253,10 @@ type segEventL struct {
 
 func (d *segDriver) observe(enc *json.Encoder, text []rune, kinds string, withRunes bool) {
 	// history: the re-used segmenter has processed every earlier string of this shard
-	d.reused.Init(text)
+	// ... and receives its input in a caller-owned buffer that is edited in place between calls (same
+	// backing array, and the same length whenever consecutive strings are equally long)
+	d.buf = append(d.buf[:0], text...)
+	d.reused.Init(d.buf)
 	var fresh segmenter.Segmenter
 	fresh.Init(text)
 	n := len(text)
